@@ -225,7 +225,11 @@ def _is_app(ex, st, tok):
 @R.specfn("as_app")
 def _as_app(ex, st, tok):
     from pyvc.values import VRef
-    return VRef(ex.unwrap(tok).t, "Application")
+    t = ex.unwrap(tok).t
+    if t.sort != _INT:
+        # e.g. a hint evaluated where `cur` still names the element of an earlier loop of another kind: not applicable
+        raise RuntimeError("spec name 'cur' is unbound here (element of another loop)")
+    return VRef(t, "Application")
 
 
 R.macro("routes", ["n", "realm"], "n._peer_routes[realm]")
@@ -390,7 +394,7 @@ R.contract("Node.close_connection_socket", params={"self": "Node", "conn": "Peer
            ghost_modifies=["conn.g_close_calls", "conn.g_close_reason"],
            ghost_ensures=["conn.g_close_calls == old(conn.g_close_calls) + 1", "conn.g_close_reason == disconnect_reason"],
            ensures=[("nothing-sent", "nothing_sent(conn)")],
-           modifies=["*PeerConnection.state", "*Peer.connection", "*Peer.disconnect_reason", "*Peer.last_disconnect",
+           modifies=["*PeerConnection.state", "*Peer.connection", "*Peer.disconnect_reason", "*Peer.last_disconnect", "*Peer.last_connect",
                      "dict:self.connections", "dict:self.peer_sockets", "dict:self._peer_waiting_answer", "*Event.flag",
                      "*StoppableThread.stopped", "*Socket.closed"],
            note="ASSUMED here (C13 verifies the table effects); the ghost counter records each call and its reason")
@@ -460,7 +464,7 @@ R.contract("Node._check_timers", params={"self": "Node", "conn": "PeerConnection
                 % (CONNECTED, READY, READY_WAITING_DWA))],
            ghost_modifies=["conn._write_msg_queue.g_put", "conn.g_close_calls", "conn.g_close_reason"],
            modifies=["conn.hop_by_hop_seq._sequence", "self.end_to_end_seq._sequence", "conn.state", "conn._last_dwr",
-                     "*PeerConnection.state", "*Peer.connection", "*Peer.disconnect_reason", "*Peer.last_disconnect",
+                     "*PeerConnection.state", "*Peer.connection", "*Peer.disconnect_reason", "*Peer.last_disconnect", "*Peer.last_connect",
                      "dict:self.connections", "dict:self.peer_sockets", "dict:self._peer_waiting_answer", "*Event.flag",
                      "*StoppableThread.stopped", "*Socket.closed", "dict:self.socket_peers",
                      "dict:self._half_ready_connections", "*list:Peer"],
